@@ -420,6 +420,11 @@ class WebSocket(object):
         for extension in extensions:
             extension_token, options = parse_extension(extension)
             if extension_token == 'permessage-deflate':
+                if not self.compress:
+                    # https://tools.ietf.org/html/rfc6455#section-4.1
+                    raise errors.HandshakeError(
+                        'server enabled an extension that was not requested'
+                    )
                 enabled_extensions.add('permessage-deflate')
                 compression = Deflate.from_options(options)
                 self.state.compression = compression
